@@ -145,6 +145,10 @@ func (di *docValueReader) loadDvChunk(chunkNumber uint64, s *Segment) error {
 	destChunkDataLoc += start
 	curChunkEnd += end
 
+	// nothing is cached until the load completes: a failed load must not leave
+	// the previous chunk number standing over a partially overwritten header
+	di.curChunkNum = math.MaxInt64
+
 	// read the number of docs reside in the chunk
 	numDocsData, err := s.data.Read(int(destChunkDataLoc), int(destChunkDataLoc+binary.MaxVarintLen64))
 	if err != nil {
